@@ -89,7 +89,7 @@ def check(run):
 
 
 def _sig(evs, clauses):
-    return None
+    return syncfam.sig_default(evs, clauses)
 
 
 def replay(run, path):
